@@ -221,6 +221,17 @@ pub fn gen_program(rng: &mut Rng, max_items: usize) -> Prog {
                     if t > 0 && !(seg == Seg::Data && t < ram_start) || (seg == Seg::Data && t > 0) {
                         nodes.push(Node::Org(g.lit(t as i64)));
                         neg_done = true;
+                        // (half of the time only a label stands behind the backward origin, something else is looked at,
+                        // and the item arrives later, without an origin of its own: refused all the same)
+                        if g.rng.chance(1, 2) {
+                            let l = g.names.fresh("lbl", g.rng);
+                            nodes.push(Node::Label(l));
+                            let other = if seg == Seg::Code { Seg::Data } else { Seg::Code };
+                            nodes.push(Node::Seg(other));
+                            let it = g.item(other);
+                            nodes.push(it);
+                            nodes.push(Node::Seg(seg));
+                        }
                         let it = g.item(seg);
                         nodes.push(it);
                         break;
